@@ -1406,7 +1406,7 @@ fn witnesses() -> Oracle {
     });
     // D46: a table beyond the reader's MAX_ID
     run("D46-table-over-max-id", "D46-save-writes-table-the-reader-refuses", &|| {
-        for (size, must_save) in [(999_999u64, false), (999_990u64, true)] {
+        for (size, must_save) in [(999_999u64, false), (999_997u64, false), (999_996u64, true), (999_990u64, true)] {
             let mut w = PdfWriter::new(b"", "1.7");
             w.free(0, 0, 65535);
             w.object(1, 0, b"<< /Type /Catalog /Pages 2 0 R >>");
